@@ -319,6 +319,14 @@ func runC05(p *core.Program, r *core.Report) {
 			}
 		}
 	}
+	topSeen := map[ast.Node]bool{}
+	for _, t := range em.Templates["<top>"] {
+		for i := range t.Events {
+			if t.Events[i].Kind == "instr" {
+				topSeen[t.Events[i].Site] = true
+			}
+		}
+	}
 	// emit sites
 	type siteKey struct {
 		fn string
@@ -343,11 +351,37 @@ func runC05(p *core.Program, r *core.Report) {
 		}
 	}
 	r.Analysed["emit_sites"] = len(sites)
+	// completeness: every call of the emit primitive in the package is a site some template covers
+	cinfo := p.Pkg("compiler").TypesInfo
+	nCalls := 0
+	for _, fd := range p.FuncDecls("compiler") {
+		if fd.Body == nil {
+			continue
+		}
+		ast.Inspect(fd.Body, func(n ast.Node) bool {
+			call, ok := n.(*ast.CallExpr)
+			if !ok {
+				return true
+			}
+			if fn := eng.CalleeOf(cinfo, call); fn != nil && em.Prims[fn] == "emit" {
+				nCalls++
+				if siteSeen[call] == nil && !topSeen[call] {
+					r.Unk("R5.2", fmt.Sprintf("%s/emit call not covered by any template", core.FuncName("compiler", fd)), p.Pos(call.Pos()), "this call of the emit primitive is on no extracted template path: what it emits is not verified")
+				}
+			}
+			return true
+		})
+	}
+	r.Analysed["emit_calls_in_package"] = nCalls
 
 	// every opcode that has a handler is either emitted somewhere or listed
 	emitted := map[string]bool{}
-	for _, s := range siteSeen {
-		emitted[s.Op] = true
+	for _, t := range em.AllTemplates() {
+		for _, x := range t.Events {
+			if x.Kind == "instr" {
+				emitted[x.Op] = true
+			}
+		}
 	}
 	for _, t := range em.Templates["<top>"] {
 		for _, x := range t.Events {
@@ -373,7 +407,7 @@ func runC05(p *core.Program, r *core.Report) {
 	pairRules(p, r, e)
 
 	r.Floor("R5.1", 2*52)
-	r.Floor("R5.2", 120)
+	r.Floor("R5.2", 110)
 	r.Floor("R5.3", 70)
 	r.Floor("R5.5", 70)
 	r.Floor("R5.6", 70)
@@ -635,9 +669,18 @@ func c05Controls() []core.Mutant {
 		{Name: "OpMethod with a string constant", File: "compiler/compiler.go", Old: "c.emit(OpMethod, c.makeConstant(Call{Name: node.Method, Size: len(node.Arguments)})...)", New: "c.emit(OpMethod, c.makeConstant(node.Method)...)", Rule: "R5.2", Construct: "OpMethod"},
 		{Name: "pop in OpJumpIfFalse", File: "vm/vm.go", Old: "\t\t\tif !vm.current().(bool) {", New: "\t\t\tif !vm.pop().(bool) {", Rule: "R5.5", Construct: ""},
 		{Name: "opcode constant without handler", File: "vm/opcodes.go", Old: "\tOpBegin\n", New: "\tOpBegin\n\tOpSwap\n", Rule: "R5.1", Construct: "OpSwap"},
-		{Name: "forget to patch one placeholder", File: "compiler/compiler.go", Old: "\tc.patchJump(otherwise)\n\tc.emit(OpPop)\n\tc.compile(node.Exp2)", New: "\tc.emit(OpPop)\n\tc.compile(node.Exp2)", Rule: "R5.3", Construct: "ConditionalNode"},
+		{Name: "forget to patch one placeholder", File: "compiler/compiler.go", Old: "\tc.patchJump(otherwise)\n\tc.emit(OpPop)\n\tc.compile(node.Exp2)", New: "\t_ = otherwise\n\tc.emit(OpPop)\n\tc.compile(node.Exp2)", Rule: "R5.3", Construct: "ConditionalNode"},
 		{Name: "len builtin leaves the collection", File: "compiler/compiler.go", Old: "\t\tc.emit(OpLen)\n\t\tc.emit(OpRot)\n\t\tc.emit(OpPop)\n", New: "\t\tc.emit(OpLen)\n", Rule: "R5.5", Construct: "\"len\""},
 		{Name: "filter sized by size", File: "compiler/compiler.go", Old: "\t\tc.emit(OpLoad, count...)\n\t\tc.emit(OpEnd)\n\t\tc.emit(OpArray)", New: "\t\tc.emit(OpLoad, c.makeConstant(\"size\")...)\n\t\tc.emit(OpEnd)\n\t\tc.emit(OpArray)", Rule: "R5.5", Construct: "\"filter\""},
+		{Name: "patchJump off by one", File: "compiler/compiler.go", Old: "offset := len(c.bytecode) - 2 - placeholder", New: "offset := len(c.bytecode) - 1 - placeholder", Rule: "R5.3", Construct: "patchJump/landing"},
+		{Name: "calcBackwardJump off by one", File: "compiler/compiler.go", Old: "len(c.bytecode) + 1 + 2 - to", New: "len(c.bytecode) + 2 - to", Rule: "R5.3", Construct: "calcBackwardJump/landing"},
+		{Name: "encode big-endian", File: "compiler/compiler.go", Old: "binary.LittleEndian.PutUint16(b, i)", New: "binary.BigEndian.PutUint16(b, i)", Rule: "R5.3", Construct: "vm.(VM).arg/layout"},
+		{Name: "VM reads operand big-endian", File: "vm/vm.go", Old: "return uint16(b0) | uint16(b1)<<8", New: "return uint16(b1) | uint16(b0)<<8", Rule: "R5.3", Construct: "vm.(VM).arg/layout"},
+		{Name: "emit returns the opcode position", File: "compiler/compiler.go", Old: "\tc.bytecode = append(c.bytecode, op)\n\tcurrent := len(c.bytecode)\n", New: "\tcurrent := len(c.bytecode)\n\tc.bytecode = append(c.bytecode, op)\n", Rule: "R5.3", Construct: "emit/returned position"},
+		{Name: "jump offset guard removed", File: "compiler/compiler.go", Old: "\toffset := len(c.bytecode) - 2 - placeholder\n\tif offset > math.MaxUint16 {\n\t\tpanic(\"exceeded jump offset limit\")\n\t}\n", New: "\toffset := len(c.bytecode) - 2 - placeholder\n", Rule: "R5.4", Construct: "patchJump"},
+		{Name: "constant pool guard after conversion is too lax", File: "compiler/compiler.go", Old: "if len(c.constants) > math.MaxUint16 {", New: "if len(c.constants) > math.MaxUint16+2 {", Rule: "R5.4", Construct: "makeConstant"},
+		{Name: "makeConstant returns the pool length", File: "compiler/compiler.go", Old: "p := uint16(len(c.constants) - 1)", New: "p := uint16(len(c.constants))", Rule: "R5.8", Construct: "returns the index"},
+		{Name: "JumpBackward handler adds", File: "vm/vm.go", Old: "vm.ip -= int(offset)", New: "vm.ip += int(offset)", Rule: "", Construct: "OpJumpBackward"},
 		{Name: "refactor: extract emitBinary", File: "compiler/compiler.go", Old: "\tcase \"<\":\n\t\tc.compile(node.Left)\n\t\tc.compile(node.Right)\n\t\tc.emit(OpLess)\n", New: "\tcase \"<\":\n\t\tc.emitBinary(node, OpLess)\n", Edits: [][2]string{{"func (c *compiler) MatchesNode(", "func (c *compiler) emitBinary(node *ast.BinaryNode, op byte) {\n\tc.compile(node.Left)\n\tc.compile(node.Right)\n\tc.emit(op)\n}\n\nfunc (c *compiler) MatchesNode("}}, Silent: true},
 	}
 }
